@@ -120,7 +120,8 @@ public:
   {
     bool m;
     std::string f = fileOf(D->getLocation(), m);
-    return m || isQuillFile(f);
+    // generated witness units #include the hand-written ones (witness/effects.cpp): their user types and codecs count as well
+    return m || isQuillFile(f) || llvm::StringRef(f).find("/witness/") != llvm::StringRef::npos;
   }
 
   std::string locStr(SourceLocation L)
